@@ -7,6 +7,7 @@ package main
 //                                 message, in order, while a hostile peer acts
 //   witness_probe                 … and are still served afterwards: one more QoS 2 message, a new subscription, PINGREQ
 //   offender_closed               a stream that definitely violates the protocol gets its own connection closed by the broker
+//   unsolicited_acks_harmless     acknowledgements for deliveries never made do not park the connection's processor
 //   publisher_released            a publisher parked inside the backend (a subscriber's window and queue are full) is released
 //                                 when that subscriber's connection ends — by close, DISCONNECT, or the token timeout
 //   fault_closes_offender / fault_will   a backend call failing at one call site ends that connection only, will as due
@@ -282,6 +283,31 @@ func hostiles() []hostile {
 			}
 			rawSend(port, chunks...)
 		}
+	})
+	add("unsolicited-acknowledgements", func(sc *scen, c *hx.Ctx) {
+		// PUBACK / PUBCOMP / PUBREC for deliveries that were never made, on fresh connections whose window is untouched: the
+		// connection goes on being served (PINGREQ answered), and when the peer hangs up the broker notices (end(): closed signal, Terminate)
+		bad := []string{}
+		for i, acks := range [][]packet.Generic{
+			{&packet.Puback{ID: 1}}, {&packet.Pubcomp{ID: 1}, &packet.Pubcomp{ID: 2}}, {&packet.Puback{ID: 7}, &packet.Pubcomp{ID: 65535}, &packet.Puback{ID: 7}},
+			{&packet.Pubrec{ID: 3}, &packet.Pubcomp{ID: 3}, &packet.Pubcomp{ID: 3}, &packet.Puback{ID: 3}}} {
+			p := sc.dial(fmt.Sprintf("unsol%d", i), true)
+			if p.connect(fmt.Sprintf("unsol%d", i), i%2 == 0, nil) == nil {
+				bad = append(bad, fmt.Sprintf("connection %d not acknowledged", i))
+				continue
+			}
+			for _, a := range acks {
+				p.send(a)
+			}
+			if !p.ping() {
+				bad = append(bad, fmt.Sprintf("connection %d: PINGREQ after %d unsolicited acknowledgement(s) not answered", i, len(acks)))
+			}
+			if i%2 == 1 {
+				p.send(&packet.Disconnect{})
+			}
+			p.close()
+		}
+		sc.direct("unsolicited_acks_harmless", len(bad) == 0, joinLines(bad))
 	})
 	add("bit-flips", func(sc *scen, c *hx.Ctx) {
 		// a valid session with one to three bits flipped somewhere after the CONNECT (corrupt frames)
